@@ -17,7 +17,7 @@ FAMILY = ('UNIT: parse_expression(text).get_value(scope) where text is rendered 
           'enumerated operator tree (<= 2 binary operators quick / <= 3 thorough, unary minus, LSB/BYTEn at operand '
           'positions, redundant parentheses) and every label leaf is symbolic; literal leaves from a catalogue of '
           'notations; malformed token sequences from a catalogue')
-BOUNDS = {'label leaves': '|v| <= 2^16 (division-free trees, W=96) / |v| <= 2^7 (trees with / or %, W=64)',
+BOUNDS = {'label leaves': '|v| <= 2^16 (W=96) / |v| <= 2^7 (trees with / or %, W=64) / |v| <= 2^8 (byte extraction of a product or shift, W=48)',
           'shift counts': '0..12', 'divisors': 'non-zero (division by zero is not judged)',
           '% operands': 'judged for integer a >= 0, b > 0 only', 'literal spellings': 'catalogue (not symbolic)'}
 ASSUMPTIONS = ['bitwise operators, shifts and byte extraction are judged on integer-valued operands only',
@@ -95,6 +95,21 @@ def shift_count_leaves(t, acc=None):
     return acc
 
 
+def has_kind(t, kinds):
+    if t[0] in kinds:
+        return True
+    return any(isinstance(c, (tuple, list)) and has_kind(c, kinds) for c in t[1:])
+
+
+def sizing(t):
+    """(bit-vector width, bound of the label leaves) chosen from the operators in the tree"""
+    if has_div(t):
+        return 64, 1 << 7
+    if has_kind(t, ('lsb', 'byte')) and has_kind(t, ('*', '<<')):
+        return 48, 1 << 8
+    return 96, 1 << 16
+
+
 class Rat:
     """exact rational over bit-vector terms (reference side; written independently of the proxy)"""
 
@@ -157,7 +172,7 @@ class ExprShape(Shape):
 
     @property
     def width(self):
-        return 64 if has_div(self.params['tree']) else 96
+        return sizing(self.params['tree'])[0]
 
     def setup(self, symbolic):
         if symbolic:
@@ -165,7 +180,7 @@ class ExprShape(Shape):
             shims.install()
 
     def expected_outcomes(self):
-        return ['ok']
+        return ['ok'] if self.sid.split(':')[0] in ('op1', 'op2', 'op3', 'hand') else []
 
     def _leaves(self):
         out = []
@@ -186,7 +201,7 @@ class ExprShape(Shape):
         from bespokeasm.assembler.label_scope import GlobalLabelScope
         from bespokeasm.assembler.line_identifier import LineIdentifier
         lid = LineIdentifier(7, 'expr')
-        lim = (1 << 7) if has_div(self.params['tree']) else (1 << 16)
+        lim = sizing(self.params['tree'])[1]
         scope = GlobalLabelScope(set())
         counts = shift_count_leaves(self.params['tree'])
         for nm in self._leaves():
